@@ -237,6 +237,16 @@ static void case_bytes(vrng *r, uint64_t global)
     char origin[100];
     bool reserve_empty = false;
     if (global < vncorpus) { vb_put(&d, vcorpus[global].p, vcorpus[global].n); snprintf(origin, sizeof origin, "corpus %s", vcorpus[global].name); vw_count("corpus_files", 1); }
+    else if (global < vncorpus + 24) {
+        /* array openers far beyond the parser's limit of 255: the recursive deserialiser must be stopped by the C parser, not by the stack */
+        static const uint32_t NEST[] = { 254, 255, 256, 300, 5000, 60000 };
+        uint32_t n = NEST[(global - vncorpus) % 6]; int levels = 1 + (int)((global - vncorpus) / 6) * 3;
+        for (int l = 0; l < levels; l++) { vb_u8(&d, 0x40); vb_u8(&d, 0x14); vb_u8(&d, 0x00); }
+        vb_fill(&d, 0x42, n); vb_fill(&d, 0x43, n);
+        for (int l = 0; l < levels; l++) vb_u8(&d, 0x41);
+        snprintf(origin, sizeof origin, "%u nested arrays below %d object level(s)", n, levels);
+        vw_count("deep_array_documents", 1);
+    }
     else {
         uint32_t k = vrn(r, 100);
         if (k < 6) { d.n = 0; vb_reserve(&d, 4); uint8_t t[2] = { (uint8_t)(0x40 + vrn(r, 2)), (uint8_t)(0x40 + vrn(r, 3)) }; vb_put(&d, t, vrn(r, 3)); reserve_empty = vrn(r, 2); snprintf(origin, sizeof origin, "length %zu", d.n); }
